@@ -6,6 +6,7 @@ import json
 import os
 import shutil
 import sys
+from typing import Generator
 from pathlib import Path
 
 from .. import gen
@@ -14,8 +15,8 @@ from ..procs import pmap
 from ..tlc import account, run_tlc, tla
 
 MODULE = 'vgen.migrate'
-TASKS = {'a': 'json', 'b': 'numpy', 'c': 'dir', 'p': 'pandas', 'g': 'generated', 'm': 'mem', 'f': 'figure', 'r': 'rep', 'v': 'voc'}
-SLUG = {'a': 'a', 'b': 'grp:b', 'c': 'c', 'p': 'p', 'g': 'g', 'm': 'm', 'f': 'fig', 'r': 'rep', 'v': 'left::voc'}
+TASKS = {'a': 'json', 'b': 'numpy', 'c': 'dir', 'p': 'pandas', 'g': 'generated', 'm': 'mem', 'f': 'figure', 'r': 'rep', 'v': 'voc', 'e': 'empty'}
+SLUG = {'a': 'a', 'b': 'grp:b', 'c': 'c', 'p': 'p', 'g': 'g', 'm': 'm', 'f': 'fig', 'r': 'rep', 'v': 'left::voc', 'e': 'empty'}
 
 
 def module():
@@ -83,7 +84,16 @@ def module():
             gen.RUNLOG.append({'slug': 'rep'})
             return {'rep': [t.value for t in self.input_tasks.values()]}
 
-    for c in (FigTask, ContTask, VocTask, RepTask):
+    class EmptyTask(Task):
+        """a generator task that legitimately yields nothing: its stored result is a file of 0 bytes"""
+        class Meta:
+            name = 'empty'
+
+        def run(self) -> Generator:
+            gen.RUNLOG.append({'slug': 'empty'})
+            return (x for x in [])
+
+    for c in (FigTask, ContTask, VocTask, RepTask, EmptyTask):
         c.__module__ = MODULE
         setattr(mod, c.__name__, c)
     return mod
@@ -116,7 +126,7 @@ def one(job):
         vf = root / 'v.json'
         vf.write_text(json.dumps({'tasks': [f'{MODULE}.VocTask'], 'w': 9}))
         cfgf.write_text(json.dumps({'tasks': [f'{MODULE}.M{t}Task' for t in 'abcpgm'] + [f'{MODULE}.FigTask', f'{MODULE}.ContTask',
-                                                                                      f'{MODULE}.RepTask'],
+                                                                                      f'{MODULE}.RepTask', f'{MODULE}.EmptyTask'],
                                     'x': 4, 'uses': [f'{vf} as left', f'{vf} as right']}))
         srcdir, dstdir = root / 'src', root / 'dst'
         old = Config(srcdir, cfgf).chain(parameter_mode=False)
@@ -126,12 +136,14 @@ def one(job):
                 return v.axes[0].get_title()
             if TASKS[t] in ('rep', 'voc'):
                 return v
+            if TASKS[t] == 'empty':
+                return list(v)
             return gen.decode(TASKS[t], v)
         for t in TASKS:
             vals[t] = dec(t, old[SLUG[t]].value)
         _ = old['cont'].value          # a resumable task interrupted after its first chunk: progress lives in <cfg>_tmp
         progress = sorted(str(p.relative_to(srcdir)) for p in (srcdir / 'cont').rglob('*') if p.is_file() and '_tmp' in str(p))
-        stored = set(case['src']) | {'g', 'p'}
+        stored = set(case['src']) | {'g', 'p', 'e'}
         for t in TASKS:
             if TASKS[t] != 'mem' and t not in stored:
                 old[SLUG[t]].force(delete_data=True)
@@ -166,13 +178,13 @@ def one(job):
         for t, kind in TASKS.items():
             if kind == 'mem':
                 continue
-            want = migrated and t in (set(case['src']) | {'g', 'p'})
+            want = migrated and t in (set(case['src']) | {'g', 'p', 'e'})
             has = bool(new[SLUG[t]].has_data)
             if has != want:
                 bad.append(('has-data', f'{label}: after migration the target has_data({SLUG[t]}) = {has}, in name mode it was '
-                                        f'{t in case["src"]}'))
+                                        f'{t in (set(case["src"]) | {"g", "p", "e"})}'))
         if migrated and not bad:
-            for t in sorted(set(case['src']) | {'g', 'p'}):
+            for t in sorted(set(case['src']) | {'g', 'p', 'e'}):
                 gen.RUNLOG.clear()
                 v = dec(t, new[SLUG[t]].value)
                 if v != vals[t]:
@@ -188,7 +200,7 @@ def one(job):
 
 
 def run(ctx):
-    pers = [t for t, k in TASKS.items() if k != 'mem' and t not in ('g', 'p')]   # (g, p always stored: keeps 2^n small)
+    pers = [t for t, k in TASKS.items() if k != 'mem' and t not in ('g', 'p', 'e')]   # (g, p always stored: keeps 2^n small)
     steps = 2 if ctx.quick() else 3
     mod = ('---- MODULE MCMigrate ----\nEXTENDS Migrate\n'
            f'c_Tasks == {tla(set(TASKS))}\nc_Pers == {tla(set(pers))}\n====\n')
